@@ -162,4 +162,27 @@ SPECS = {
   "exhaustive_note": "the configuration x mode x order grid is enumerated completely on every run; schedules within a cell are sampled",
   "assumptions": ENGINE_V,
  },
+
+ "C12": {
+  "level": "fault_enumeration",
+  "passes": [fsm("^TestC12$")],
+  "rule": "one case = one history of 1-4 (quick) / 1-6 (thorough) events on one peer (active or passive): protocol-error sources {remote NOTIFICATION code 1,2,3,4,5,7,8,0,255; corebgp-sent header error, OPEN error, FSM error, hold-timer expiry; plugin NOTIFICATION from OnOpenMessage and from the update handler} "
+          "x state {OpenSent, OpenConfirm, Established} x direction x optional second connection in the other direction, spaced {asap, 100 s, 239 s, 299 s, 299.99 s, 300.01 s, 301 s, 1000 s} after the previous protocol error, "
+          "interleaved with non-damping events {received Cease, remote close, RST, DeletePeer+AddPeer, plugin-returned Cease}. The first 42 cases enumerate every (source, state, direction) as a first error. "
+          "Oracle = executable back-off model internal/ref/backoff.go over the history of error instants (virtual time): all connections closed; probe at T+D-1s refused with zero bytes; no dial in the hold-down; first dial at T+D +-5 ms (active); probe at T+D+1s served; "
+          "after a non-damping event a probe 1 ms later is served. distinct = distinct (passive, step list, trace).",
+  "exhaustive_note": "every (error source, state, direction) combination occurs as a first error on every run; histories beyond that are sampled",
+  "assumptions": ENGINE_V + ["the error instant is taken as the remote's send time of the stimulus (or the arrival of corebgp's NOTIFICATION); tolerance 5 ms virtual"],
+ },
+
+ "C11": {
+  "level": "fault_enumeration",
+  "passes": [fsm("^TestC11$")],
+  "rule": "family strings: every fault string of length <= 3 (quick) / <= 4 (thorough) over the 11-symbol alphabet {refuse, stall, close|reset|cease @ OpenSent|OpenConfirm|Established} (exhaustive), each applied to the successive outbound attempts of an active peer "
+          "(or to successive inbound connections of a passive one) with (idle-hold, connect-retry) drawn from {(5s,5s),(1s,30s),(30s,1s),(100ms,100ms)}, followed by a well-behaved remote; family long: random strings of length 4-6; family inbound-end: an inbound Established session of an active peer ends "
+          "by close/reset/Cease; family realdial: real refused loopback dials inside the bubble observed through WithDialerControl. Oracle on the dial log (virtual timestamps from the dial hook / DialerControl): refused attempt followed by the next after idle-hold (never earlier than idle-hold-5ms, never later than idle-hold+connect-retry), "
+          "stalled attempt cancelled and replaced within connect-retry, new attempt within idle-hold+connect-retry after any other fault, Established within idle-hold+connect-retry+1s of the last fault (liveness restated as bounded progress), passive peers never dial, dialling resumes <= 5 ms after an inbound session ends and a new inbound connection is served.",
+  "exhaustive_note": "all fault strings up to the stated length are enumerated on every run",
+  "assumptions": ENGINE_V + ["unbounded 'keeps trying' is decided only as bounded progress for fault strings up to the stated length"],
+ },
 }
